@@ -166,6 +166,52 @@ func TestWorker(t *testing.T) {
 	outPath := os.Getenv("VERIF_OUT")
 	thorough := os.Getenv("VERIF_TIER") == "thorough"
 
+	if hs := os.Getenv("VERIF_HASHES"); hs != "" {
+		// determinism self-test: print (run index, variant, seed, trace hash) for the first N runs of this worker slot
+		n, _ := strconv.Atoi(hs)
+		base := uint64(envInt("VERIF_SEED", 1))
+		worker := envInt("VERIF_WORKER", 0)
+		for i := 0; i < n; i++ {
+			seed := runSeed(base, prop, worker, i)
+			variant := pe.Variants[i%len(pe.Variants)]
+			o := eng(t, simrt.NewTape(seed), RunOpts{Prop: prop, Variant: variant, Thorough: thorough})
+			fmt.Printf("DET %s %d %s %d %x %d %v\n", prop, i, variant, seed, o.TraceHash, o.Steps, len(o.Violations))
+		}
+		return
+	}
+	if ds := os.Getenv("VERIF_DIFF_SEED"); ds != "" {
+		// determinism debugging: run one seed twice in this process and show where the traces part
+		seed, _ := strconv.ParseUint(ds, 10, 64)
+		variant := os.Getenv("VERIF_VARIANT")
+		n := envInt("VERIF_DIFF_RUNS", 2)
+		var traces [][]string
+		for i := 0; i < n; i++ {
+			o := eng(t, simrt.NewTape(seed), RunOpts{Prop: prop, Variant: variant, Thorough: thorough, Trace: true})
+			traces = append(traces, append(append([]string{}, o.Trace...), fmt.Sprintf("HASH %x", o.TraceHash)))
+		}
+		for i := 1; i < n; i++ {
+			a, b := traces[0], traces[i]
+			for j := 0; j < len(a) && j < len(b); j++ {
+				if a[j] != b[j] {
+					fmt.Printf("run 0 and run %d part at line %d\n", i, j)
+					for k := max(0, j-12); k < j; k++ {
+						fmt.Println("   ", a[k])
+					}
+					fmt.Println(" A>", a[j])
+					fmt.Println(" B>", b[j])
+					for k := j + 1; k < min(len(a), j+6); k++ {
+						fmt.Println(" A ", a[k])
+					}
+					for k := j + 1; k < min(len(b), j+6); k++ {
+						fmt.Println(" B ", b[k])
+					}
+					break
+				}
+			}
+		}
+		fmt.Println("lens", len(traces[0]), len(traces[n-1]))
+		return
+	}
 	if rp := os.Getenv("VERIF_REPLAY"); rp != "" {
 		replayMain(t, eng, prop, rp, outPath, os.Getenv("VERIF_SHRINK") != "")
 		return
